@@ -178,8 +178,8 @@ func vpC05StartWith(tag string, nodes, self int, mode string, rot int) (*vpC05En
 	switch e.mode {
 	case "ledger":
 		clock.MockDiff(time.Unix(0, int64(e.clock)).Add(2 * time.Second).Sub(time.Now()))
-	case "behind": // the node's clock lags the ledger: no chain may propose yet
-		clock.MockDiff(time.Unix(0, int64(e.clock)).Add(-time.Hour).Sub(time.Now()))
+	case "behind": // the node's clock lags the ledger by a day: no head round may be extended, nobody can propose
+		clock.MockDiff(time.Unix(0, int64(e.clock)).Add(-24 * time.Hour).Sub(time.Now()))
 	}
 	return e, nil
 }
@@ -621,7 +621,7 @@ func (e *vpC05Env) chainIndex(id crypto.Hash) int {
 }
 
 func TestVP_C05_kernel_admission(t *testing.T) {
-	c := kit.New(t, "C05", "rapid: a real node (7 or 8 genesis nodes; observer or member with peers reporting its round; kernel clock at the wall time, mocked to the ledger time or one hour behind the ledger; Peer without neighbours as in C31) with finalized XIN/BTC outputs; batches of 2..6 transactions = valid templates (deposit, transfer, withdrawal submit, custodian update, node pledge, accept- and remove-shaped, mint-shaped) with 0..3 structural mutations (signature maps none/short/long/shifted, aggregate signature with arbitrary signers, output type confusion, huge/zero amounts, inputs re-pointed at genesis accept / custodian / spent / missing / other-asset outputs, mint or deposit payload riding on an ordinary input, storage-output shape, references none/unknown/known/17, extra cut/grown/genesis, node-remove typed without signature maps, extra outputs, other asset), re-signed with the owners' keys, round-tripped through Marshal/Unmarshal; each is handed to QueueTransaction, CacheQueueTransactions and/or CacheStoreTransactions, then popAndProcessCacheQueue runs, then validateSnapshotTransaction(s, false|true) on snapshots naming 1..3 of them (chain elected for the operation or drawn, times in and outside the operation windows); oracle: no call panics; non-trivial = the transaction got past the structural checks of Validate inside an entry point (rejected later or accepted); distinct by encoding hash")
+	c := kit.New(t, "C05", "rapid: a real node (7 or 8 genesis nodes; observer or member with peers reporting its round; kernel clock at the wall time, mocked to the ledger time or one day behind the ledger; Peer without neighbours as in C31) with finalized XIN/BTC outputs; batches of 2..6 transactions = valid templates (deposit, transfer, withdrawal submit, custodian update, node pledge, accept- and remove-shaped, mint-shaped) with 0..3 structural mutations (signature maps none/short/long/shifted, aggregate signature with arbitrary signers, output type confusion, huge/zero amounts, inputs re-pointed at genesis accept / custodian / spent / missing / other-asset outputs, mint or deposit payload riding on an ordinary input, storage-output shape, references none/unknown/known/17, extra cut/grown/genesis, node-remove typed without signature maps, extra outputs, other asset), re-signed with the owners' keys, round-tripped through Marshal/Unmarshal; each is handed to QueueTransaction, CacheQueueTransactions and/or CacheStoreTransactions, then popAndProcessCacheQueue runs, then validateSnapshotTransaction(s, false|true) on snapshots naming 1..3 of them (chain elected for the operation or drawn, times in and outside the operation windows); oracle: no call panics; non-trivial = the transaction got past the structural checks of Validate inside an entry point (rejected later or accepted); distinct by encoding hash")
 	c.Require("queue-tx:accepted", "queue-tx:deep", "queue-tx:early", "queue-tx:requeue", "cache-queue", "cache-store", "pop:accepted", "pop:deep", "pop:early", "pop-relayed-or-proposed",
 		"snap:accepted", "snap:deep", "snap:early", "snap:missing", "snap-finalized", "snap-ordinary", "snap-batch", "snap-kernel-rule",
 		"template-deposit", "template-transfer", "template-submit", "template-custodian", "template-pledge", "template-accept", "template-remove", "template-mint",
@@ -727,7 +727,10 @@ func TestVP_C05_kernel_admission(t *testing.T) {
 			}
 			// the queue loop body
 			mark := vpC05LogMark(e.k.Proxy)
-			processed := 0
+			processed, pooled := 0, 0
+			if node.chain != nil {
+				pooled = len(node.chain.CachePool)
+			}
 			if p := vpKCatch(func() { processed = node.popAndProcessCacheQueue() }); p != nil {
 				var l []string
 				for _, x := range batch {
@@ -738,6 +741,9 @@ func TestVP_C05_kernel_admission(t *testing.T) {
 				t.Fatalf("popAndProcessCacheQueue panicked: %v\nqueued transactions:\n%s", p, strings.Join(l, "\n"))
 			}
 			c.ClassN("pop-processed", processed)
+			if node.chain != nil && len(node.chain.CachePool) > pooled {
+				c.Class("pop-self-proposed")
+			}
 			if n := vpC05LogDelta(e.k.Proxy, mark, "LockGhostKeys"); n > 0 {
 				c.ClassN("pop-validated-through-outputs", n)
 			}
